@@ -104,7 +104,10 @@ def gen_cases(rng, tier):
             else:
                 c = b
             c = retag(c, 10000)
-            cases.append({"kind": kind, "input": Con("C02", ct, a, b, c), "digest_size": 8, "opts": {"universe": uj}})
+            # in a third of the cases a is detached before b and c are built: b may then be issued a's id
+            # (ids are unique among registered nodes only), and == must still look at every position
+            cases.append({"kind": kind, "input": Con("C02", ct, a, b, c), "digest_size": 8,
+                          "opts": {"universe": uj, "detach_first": rng.random() < 0.33}})
     return cases
 
 
@@ -114,7 +117,10 @@ def impl(t, case):
     u = universe_from_json(case["opts"]["universe"])
     u.load()
     bd = Built(u, mk_origin)
-    a, b, c = bd.build(t.args[1]), bd.build(t.args[2]), bd.build(t.args[3])
+    a = bd.build(t.args[1])
+    if case["opts"].get("detach_first"):
+        a.detach()
+    b, c = bd.build(t.args[2]), bd.build(t.args[3])
     ha = hash(a)
 
     def safe(f):
